@@ -172,13 +172,14 @@ func (t *BoltTransport) Dispatch(update *Update) error {
 
 // persist stores update in the database.
 func (t *BoltTransport) persist(updateID string, updateJSON []byte) error {
+	var seq uint64
 	if err := t.db.Update(func(tx *bolt.Tx) error {
 		bucket, err := tx.CreateBucketIfNotExists([]byte(t.bucketName))
 		if err != nil {
 			return fmt.Errorf("error when creating Bolt DB bucket: %w", err)
 		}
 
-		seq, err := bucket.NextSequence()
+		seq, err = bucket.NextSequence()
 		if err != nil {
 			return fmt.Errorf("error when generating Bolt DB sequence: %w", err)
 		}
@@ -191,8 +192,6 @@ func (t *BoltTransport) persist(updateID string, updateJSON []byte) error {
 		// The DB is append-only
 		bucket.FillPercent = 1
 
-		t.lastSeq = seq
-		t.lastEventID = updateID
 		if err := bucket.Put(key, updateJSON); err != nil {
 			return fmt.Errorf("unable to put value in Bolt DB: %w", err)
 		}
@@ -201,6 +200,10 @@ func (t *BoltTransport) persist(updateID string, updateJSON []byte) error {
 	}); err != nil {
 		return fmt.Errorf("bolt error: %w", err)
 	}
+
+	// The transaction is committed: a failed transaction is rolled back by Bolt and must not move the last sequence
+	t.lastSeq = seq
+	t.lastEventID = updateID
 
 	return nil
 }
